@@ -145,8 +145,13 @@ def main():
         # ---------------- classify deductive results
         exp_names = json.load(open(os.path.join(ROOT, "contracts", "expected_names.json"))) if os.path.exists(os.path.join(ROOT, "contracts", "expected_names.json")) else {}
         obligations = []; canaries = []; guards = []; engine_errors = []; funcs = []
+        fallback_units = []
         for rep in reps:
-            if rep.get("error"): engine_errors.append(f"{rep['unit']}: {rep['error']}")
+            if rep.get("error"):
+                # source outside the supported subset / an unmodelled library function is an ENGINE LIMITATION: the unit is not verified;
+                # if the property's run-time contract harness ran (bounded fallback, section 9 of DESIGN.md) the run continues on that basis
+                if str(rep["error"]).startswith("Unsupported") and harnesses: fallback_units.append({"unit": rep["unit"], "reason": rep["error"][:300]})
+                else: engine_errors.append(f"{rep['unit']}: {rep['error']}")
             if rep.get("function"): funcs.append(dict(rep["function"], paths=rep.get("paths"), pruned=rep.get("pruned"), unit=rep["unit"]))
             for r in rep["results"]:
                 r["unit"] = rep["unit"]
@@ -198,6 +203,7 @@ def main():
             hb["evaluations"] += hr.get("evaluations", 0); hb["distinct_nontrivial"] += hr.get("distinct_nontrivial", 0)
             hb["parts"].append({k: hr.get(k) for k in ("name", "evaluations", "distinct_nontrivial", "rule", "grid", "wall_s", "samples", "label") if k in hr})
             for fl in hr.get("failures", []):
+                if fl.get("engine"): engine_errors.append(f"harness {hr['name']}: {fl.get('what')}: {str(fl.get('observed'))[:200]}"); continue
                 kf = fl.get("known_finding")
                 if kf: known_hits.setdefault(kf, []).append(fl)
                 else: hviol.append(dict(fl, harness=hr["name"]))
@@ -247,6 +253,8 @@ def main():
         n_ob = len(obligations) - len(kf_whole); n_dis = sum(r["status"] == "proved" for r in obligations) + len(kf_restricted)
         if kf_restricted: by_backend["z3(restricted to the complement of a known finding)"] = len(kf_restricted)
         n_lean = len(P.get("lean", [])) if lean and lean["ok_for_property"] else 0
+        if code == 0 and fallback_units:
+            lines.append(f"BOUNDED-FALLBACK property={pid} units not verified deductively (engine limitation), covered only by the run-time contract harness: {[u['unit'].split('.')[-1] for u in fallback_units]}")
         if code == 0:
             lines.append(f"OK property={pid} obligations={n_ob + n_lean} discharged={n_dis + n_lean} (z3/cvc5 {n_dis}, lean {n_lean}) bounded_evaluations={hb['evaluations']}"
                          + (f" known_findings={len(known_hits)}" if known_hits else ""))
@@ -270,7 +278,7 @@ def main():
                "evaluations": max(1, hb["evaluations"] + n_ob), "distinct_nontrivial": max(2, hb["distinct_nontrivial"] + len({r["name"] for r in obligations})),
                "rule": "obligations: one per (contract clause | call-site precondition | loop/scan invariant step | safety condition) per feasible path; bounded parts: see coverage.bounded.parts[].rule",
                "explanation": P.get("explanation", ""),
-               "known_findings_observed": sorted(known_hits),
+               "known_findings_observed": sorted(known_hits), "bounded_fallback_units": fallback_units,
                "known_finding_obligations": [{"obligation": r["name"], "path": r["path"], "finding": r["known_finding"], "counted_as": "restricted form proved (finding's predicate excluded)" if r in kf_restricted else "not counted: the obligation is the finding"} for r in kf_restricted + kf_whole]}
         ev = {"property_id": pid, "tier": tier, "seed": seed, "level": level, "coverage": cov,
               "assumptions": P.get("assumptions", []), "wall_s": round(time.time() - t0, 2), "violations": len(violations) + len(hviol) + len(meta_fail)}
